@@ -648,3 +648,15 @@ Proof.
   - replace d' with (snd (b_step d o)) in * by (rewrite BS; reflexivity).
     exact (IH _ _ I' O3 _ _ Hn).
 Qed.
+
+(* ------------------------------------------------------------------ *)
+(* C07, first step: a crash of Commit after the node batch was flushed but before the roots
+   metadata was committed (badger.go:1126-1131) leaves a state in which every listed root is
+   still readable: the flushed node writes are puts, and puts never hide a node.           *)
+Lemma crash_after_commit_flush d ps ver :
+  inv d -> inv (mkb (b_meta d) (b_aux d) (write_all ps ver true (b_store d))).
+Proof.
+  intros [IR IM]. split; [|exact IM]. intros v r Hev Hh n Hn. cbn [b_meta b_aux b_store] in *.
+  destruct (IR v r Hev Hh n Hn) as [A B]. split; [apply visible_puts; exact A|].
+  intros AL t Ht. apply visible_puts. apply B; assumption.
+Qed.
